@@ -257,41 +257,30 @@ Record config1 := { c1_props : list (N * option proposer1); c1_default : option 
 
 Definition empty_builder : builder1 := {| b_enabled := false; b_grace := 0; b_relays := [] |}.
 
-(* "fill in" step of v1 ProposerConfig: it MUTATES the stored entry *)
-Definition fill1 (q : proposer1) (fbgas : N) : proposer1 :=
-  {| q_fee := q_fee q;
-     q_gas := if q_gas q =? 0 then fbgas else q_gas q;
-     q_builder := Some (or_else (q_builder q) empty_builder) |}.
-
+(* the fallback entry built when neither a proposer entry nor a default is available *)
 Definition fallback1 (fbfee fbgas : N) : proposer1 :=
   {| q_fee := fbfee; q_gas := fbgas; q_builder := Some empty_builder |}.
 
-Definition relay1 (q : proposer1) (b : builder1) (a : N) : relay_cfg :=
-  {| rc_addr := a; rc_pk := None; rc_fee := q_fee q; rc_gas := q_gas q;
-     rc_grace := b_grace b; rc_min := dec_zero |}.
-
-(* output built from a filled-in entry *)
-Definition out1 (q : proposer1) : prop_cfg :=
-  let b := or_else (q_builder q) empty_builder in
+(* ExecutionConfig.ProposerConfig (v1).  The "fill in" step works on local copies: the shared
+   configuration is not altered (repo commit "do not mutate the shared v1 execution
+   configuration when resolving a proposer"). *)
+Definition proposer_config_v1 (c : config1) (key fbfee fbgas : N) : prop_cfg :=
+  let entry := match aget (c1_props c) key with          (* proposerConfig, exists := map[pubkey] *)
+               | Some e => e                              (* exists (possibly a nil pointer) *)
+               | None => c1_default c                     (* try the default config *)
+               end in
+  let q := match entry with
+           | Some q => q
+           | None => fallback1 fbfee fbgas                (* nil: the fallback config *)
+           end in
+  let gas := if q_gas q =? 0 then fbgas else q_gas q in
+  let b := match q_builder q with Some b => b | None => empty_builder end in
   {| pc_fee := q_fee q;
-     pc_relays := if b_enabled b then map (relay1 q b) (b_relays b) else [] |}.
-
-(* ExecutionConfig.ProposerConfig (v1): output and the configuration afterwards *)
-Definition proposer_config_v1 (c : config1) (key fbfee fbgas : N) : prop_cfg * config1 :=
-  match aget (c1_props c) key with
-  | Some (Some q) =>
-      let q' := fill1 q fbgas in
-      (out1 q', {| c1_props := aset (c1_props c) key (Some q'); c1_default := c1_default c |})
-  | Some None =>                                   (* exists but nil: straight to the fallback *)
-      (out1 (fill1 (fallback1 fbfee fbgas) fbgas), c)
-  | None =>
-      match c1_default c with
-      | Some q =>
-          let q' := fill1 q fbgas in
-          (out1 q', {| c1_props := c1_props c; c1_default := Some q' |})
-      | None => (out1 (fill1 (fallback1 fbfee fbgas) fbgas), c)
-      end
-  end.
+     pc_relays :=
+       if b_enabled b
+       then map (fun a => {| rc_addr := a; rc_pk := None; rc_fee := q_fee q; rc_gas := gas;
+                             rc_grace := b_grace b; rc_min := dec_zero |}) (b_relays b)
+       else [] |}.
 
 (* the documented legacy lookup: proposer entry, else default, else fallback; the gas limit alone
    falls back field-wise; relays only when the builder is enabled *)
@@ -323,20 +312,15 @@ Inductive config := CV1 (c : config1) | CV2 (c : config2).
 
 Inductive outcome := OOk (p : prop_cfg) | OErr | OPanic.
 
-Definition lookup (c : config) (v : validator) (fbfee fbgas : N) : outcome * config :=
+(* a lookup does not alter the configuration (v2 never did; v1 since the fix above) *)
+Definition lookup (c : config) (v : validator) (fbfee fbgas : N) : outcome :=
   match c with
-  | CV1 c1 => let r := proposer_config_v1 c1 (v_key v) fbfee fbgas in (OOk (fst r), CV1 (snd r))
-  | CV2 c2 => (match proposer_config_v2 c2 v fbfee fbgas with Some p => OOk p | None => OErr end, c)
+  | CV1 c1 => OOk (proposer_config_v1 c1 (v_key v) fbfee fbgas)
+  | CV2 c2 => match proposer_config_v2 c2 v fbfee fbgas with Some p => OOk p | None => OErr end
   end.
 
-Fixpoint lookups (c : config) (vs : list validator) (fbfee fbgas : N) : list outcome * config :=
-  match vs with
-  | [] => ([], c)
-  | v :: vs' =>
-      let r := lookup c v fbfee fbgas in
-      let rs := lookups (snd r) vs' fbfee fbgas in
-      (fst r :: fst rs, snd rs)
-  end.
+Definition lookups (c : config) (vs : list validator) (fbfee fbgas : N) : list outcome :=
+  map (fun v => lookup c v fbfee fbgas) vs.
 
 (* the specification of a lookup (no state) *)
 Definition resolve (c : config) (v : validator) (fbfee fbgas : N) : outcome :=
